@@ -1320,6 +1320,9 @@ void Interpreter::handle_import_statement(const ASTNode *node) {
     file.close();
 
     // パーサーを使ってモジュールをパース
+    // (the module is marked as being imported while it is parsed: an import
+    // of itself, or a cycle of imports leading back to it, is not entered)
+    RecursiveParser::ImportInProgress import_in_progress(resolved_path);
     RecursiveParser parser(source_code, module_path);
     ASTNode *module_ast = nullptr;
     try {
